@@ -13,7 +13,7 @@ git apply -R seeded.diff
 echo "== demo WITHOUT change (expect ok)"; go test -vet=off -count=1 -run 'TestSeededDemo$' ./$PKG/ 2>&1 | tail -3 > $D/demo_without.txt; tail -1 $D/demo_without.txt
 git apply seeded.diff
 mv $PKG/zz_seeded_demo_test.go /tmp/demo_$NAME.go
-echo "== build + existing tests WITH change"; go build ./... && go test -vet=off -count=1 ./core/ ./sys/ ./cron/ 2>&1 | grep -E "^(--- FAIL|FAIL|ok)" > $D/existing_tests.txt; cat $D/existing_tests.txt
+echo "== build + existing tests WITH change"; go build ./... && go test -vet=off -count=1 ./core/ ./sys/ ./cron/ ./service/ 2>&1 | grep -E "^(--- FAIL|FAIL|ok)" > $D/existing_tests.txt; cat $D/existing_tests.txt
 mv /tmp/demo_$NAME.go $PKG/zz_seeded_demo_test.go
 echo "== check $P against the change"
 git -C /repo apply $D/patch.diff && (cd /verif && ./vcheck $P > $D/check_output.txt 2>&1; echo "exit=$?" >> $D/check_output.txt); git -C /repo checkout -- .
